@@ -855,24 +855,24 @@ impl Property for C31 {
             return Ok((json!({"miri": "thorough tier only"}), vec![]));
         }
         let base = mix(&[seed, 0x4d32]) % 1_000_000;
-        let mut evidence = vec![];
-        let mut violations = vec![];
+        let mut jobs = vec![];
         for k in 0..4 {
-            let job = miri::Job {
+            jobs.push(miri::Job {
                 mode: "c31-free",
                 workload_seed: base + k,
                 workload_count: 1,
                 miri_seeds: 16,
                 flags: miri::FLAGS_PARSING,
-            };
-            let out = miri::run_job(&job)?;
-            evidence.push(out.evidence);
-            if let Some(v) = out.violation {
-                violations.push(v);
-                break;
-            }
+            });
         }
-        Ok((json!({"miri": evidence}), violations))
+        let first = jobs.remove(0);
+        let (mut ev, mut violations) = miri::run_jobs(vec![first], 1)?;
+        let (ev2, v2) = miri::run_jobs(jobs, 1)?;
+        if let (Some(a), Some(b)) = (ev["miri"].as_array_mut(), ev2["miri"].as_array()) {
+            a.extend(b.iter().cloned());
+        }
+        violations.extend(v2);
+        Ok((ev, violations))
     }
 
     fn minimise(&self, case: &J, class: &str) -> (J, u64) {
